@@ -178,10 +178,14 @@ def reconnect_harness(with_timeout: bool):
         def connect(I2: Interp, cls: V, target: V, timeout: V = NONE) -> V:
             def go() -> V:
                 log.append("connect")
-                k = I2.choose([z3.BoolVal(True)] * 2)
-                if k == 1:
+                # contract of connect(): the new transport, or any ConnectionError (refused
+                # while the peer is down, reset / broken pipe while it is half up: e.g. DoIP
+                # routing activation on a gateway that accepts TCP but does not answer yet)
+                k = I2.choose([z3.BoolVal(True)] * 5)
+                if k >= 1:
                     log.append("connect!")
-                    I2.raise_py(ConnectionRefusedError, "peer not up yet")
+                    I2.raise_py([ConnectionRefusedError, BrokenPipeError, ConnectionResetError,
+                                 ConnectionAbortedError][k - 1], "peer not up yet")
                 return new
             return coro(go)
         I.ex.contracts[Dummy.close] = close
@@ -294,15 +298,9 @@ def wake_harness(which: str):
                     wakes.append(f"{q}.{m}")
                     return coro(lambda: NONE) if m == "put" else NONE
                 I.ex.stubs[(q, m)] = woke
-        real_close = cls.close
-
-        def close(I2: Interp, self_: V) -> V:
-            def go() -> V:
-                I2.ghost["closes"] += 1
-                self_.fields[closed_attr] = VBool(True)  # type: ignore[union-attr]
-                return NONE
-            return coro(go)
-        I.ex.contracts[real_close] = close
+        # close() is executed from its real text (writer/task by contract): whether the
+        # connection ends up marked closed is decided on the code, for every state the writer
+        # can be in after the loss (is_closing() is already true after a reset)
         try:
             I.await_v(I.call_v(I.getattr_v(conn, "_read_worker"), [], {}))
         except PyExc as e:
@@ -317,6 +315,14 @@ def wake_harness(which: str):
     return harness
 
 
+def _retry_setup(ex: Explorer) -> None:
+    from . import c04
+    c04.install(ex)
+    # the exchange logic is C04's; here only the obligations about which transport object is
+    # used after a reconnect (recovery needs the reconnected one)
+    ex.obligation_filter = lambda name: name.startswith("T-") and "transport" in name  # type: ignore[attr-defined]
+
+
 def build_units(tier: str) -> list[Unit]:
     units = [Unit("closed/doip", closed_harness("doip")),
              Unit("closed/hsfz", closed_harness("hsfz")),
@@ -327,6 +333,11 @@ def build_units(tier: str) -> list[Unit]:
     for w in ("DoIPConnection", "HSFZConnection", "TCPTransport", "UnixTransport",
               "DoIPTransport"):
         units.append(Unit(f"double-close/{w}", double_close_harness(w)))
+    from . import c04
+    units.append(Unit("retry/UDSClient.request_unsafe(max_retry=1)",
+                      c04.make_harness("none", "none", "float", concrete_retry=1),
+                      setup=_retry_setup, max_paths=20000,
+                      bounded="max_retry = 1 (the unbounded retry loop is C04's)"))
     for w in ("doip", "hsfz", "tcp", "tcp-lines", "unix-lines"):
         for op in ("read", "write"):
             units.append(Unit(f"bounded/{w}/{op}", bounded_harness(w, op)))
@@ -348,7 +359,9 @@ def native_replay(unit: str, obligation: str, model: dict) -> tuple[bool, str]:
             conn = h.HSFZConnection(r, FakeWriter(), 0xF4, 0x10, 0.05)  # type: ignore
             read = conn.read_frame
         if "marks-the-connection-closed" in obligation:
-            # loss first, then a read without a caller timeout
+            # loss first (a reset: asyncio has already put the transport into closing state),
+            # then a read without a caller timeout
+            conn.writer.closing = True
             r.feed_eof()
             await asyncio.sleep(0.05)
             t = asyncio.ensure_future(read())
@@ -368,6 +381,10 @@ def native_replay(unit: str, obligation: str, model: dict) -> tuple[bool, str]:
                       f"can wake it any more)")
     if unit.startswith("wake/"):
         return asyncio.run(wake())
+    if unit.startswith("reconnect/"):
+        return native_reconnect()
+    if unit != "closed/hsfz":
+        return False, "no native scenario for this obligation"
 
     async def go() -> tuple[bool, str]:
         r = asyncio.StreamReader()
@@ -383,6 +400,48 @@ def native_replay(unit: str, obligation: str, model: dict) -> tuple[bool, str]:
                           f"{type(e).__name__}({e}), which is not a ConnectionError: "
                           f"UDSClient.request_unsafe neither maps it to MissingResponse nor "
                           f"reconnects")
+    return asyncio.run(go())
+
+
+def native_reconnect() -> tuple[bool, str]:
+    """A peer that is half up for two connection attempts (TCP accepted, then broken pipe / reset
+    during the protocol handshake) and serves the third."""
+    import gallia.command  # noqa: F401
+    from gallia.transports.base import BaseTransport, TargetURI
+    attempts: list[str] = []
+
+    class Flaky(BaseTransport, scheme="c08-flaky"):
+        def __init__(self, target: Any = None) -> None:
+            self.mutex = asyncio.Lock()
+            self.target = target
+            self.is_closed = False
+
+        async def close(self) -> None:
+            pass
+
+        @classmethod
+        async def connect(cls, target: Any, timeout: float | None = None) -> Any:
+            kinds = [ConnectionRefusedError, BrokenPipeError, ConnectionResetError]
+            if len(attempts) < len(kinds):
+                attempts.append(kinds[len(attempts)].__name__)
+                raise kinds[len(attempts) - 1]("peer not ready")
+            attempts.append("ok")
+            return cls(target)
+
+        async def read(self, timeout: float | None = None, tags: Any = None) -> bytes:
+            return b""
+
+        async def write(self, data: bytes, timeout: float | None = None, tags: Any = None) -> int:
+            return len(data)
+
+    async def go() -> tuple[bool, str]:
+        t = Flaky(TargetURI("c08-flaky://127.0.0.1:1"))
+        try:
+            new = await t.reconnect(timeout=2)
+        except Exception as e:  # noqa: BLE001
+            return True, (f"reconnect(timeout=2) gave up with {type(e).__name__} after the "
+                          f"connection attempts {attempts}; the next attempt would have succeeded")
+        return new is t, f"attempts {attempts}"
     return asyncio.run(go())
 
 
